@@ -45,6 +45,24 @@ pub fn call(case: &Value, out: &mut Outcome) {
                 Err(m) => out.violate("slots-panic", m, case.clone()),
             }
         }
+        "pack-same-name" => {
+            let src = case["source"].as_str().unwrap_or("");
+            let ls = as_i64s(&case["lines"]);
+            let (l1, l2) = (ls[0] as i32, ls[1] as i32);
+            let verdict = case["verdict"].as_str().unwrap_or("free");
+            match by_name("pack_struct_variables").map(|d| d.run(src)) {
+                Some(Ok(lines)) => {
+                    let stray = lines.iter().any(|l| *l != l1 && *l != l2);
+                    let both = lines.contains(&l1) && lines.contains(&l2);
+                    let none = !lines.contains(&l1) && !lines.contains(&l2);
+                    if stray || (verdict == "must" && !both) || (verdict == "mustnot" && !none) || (!both && !none) {
+                        out.violate("pack-same-name-structs", format!("reports {:?}", lines), case.clone());
+                    }
+                }
+                Some(Err(m)) => out.violate("pack-panic", m, case.clone()),
+                None => out.tool_error("replay: unknown detector".into()),
+            }
+        }
         "pack-verdict" => {
             // a packing detector on a rendered container: must / must not report the container's line, nothing else
             let (src, det) = (case["source"].as_str().unwrap_or(""), case["detector"].as_str().unwrap_or(""));
